@@ -182,6 +182,7 @@ func VerifC19ParCompile(i int, j int) {
 		return
 	}
 	resA, resB := "", ""
+	vAccessLogReset()
 	vPar(func() { resA = c19CompileRender(a) }, func() { resB = c19CompileRender(b) })
 	if resA != seqA || resB != seqB {
 		vFail("a Compile call running next to another Compile call returns a different program than the same call alone")
@@ -209,6 +210,7 @@ func VerifC19ParRun(i int, T int) {
 		return
 	}
 	r1, r2, rc := "", "", ""
+	vAccessLogReset()
 	vPar(func() { r1 = c19Render(v.Run(t1)) }, func() { r2 = c19Render(v.Run(t2)); rc = c19CompileRender(other) })
 	if r1 != seq1 || r2 != seq2 {
 		vFail("a Run call running next to another Run call on the same program returns different matches than the same call alone")
